@@ -70,6 +70,9 @@ XReq(p, u) ==
 \* what `meson test` needs (test executables, depends:, target arguments)
 XTestReq(p) == UNION {{XRefUnit(p, r) : r \in TestRefs(p.tests[k])} : k \in {j \in DOMAIN p.tests : ~p.tests[j].bench}}
 XDefaultUnits(p) == {u \in XUnits(p) : DefaultBuilt(p.targets[u[1]])}
+\* `install: true` on a build target whose build_by_default is false: the manual is silent for build targets (it
+\* spells the interplay out for custom_target only), meson builds such a target by default - either is accepted
+XMayDefaultUnits(p) == {u \in XUnits(p) : IsBuild(p.targets[u[1]]) /\ p.targets[u[1]].bbd = "false" /\ p.targets[u[1]].install}
 
 (* ---- matching graph targets with units ------------------------------------ *)
 XFixedNames == {"ALL_BUILD", "RUN_TESTS", "REGENERATE"}
@@ -118,7 +121,7 @@ XAllBuild(V, p) ==
     UNION {LET got == XDepTargets(V, ab) \ {o.id : o \in XFixed(V, "REGENERATE")}
                want == {XObjOf(V, p, u).id : u \in XMatched(V, p) \cap XDefaultUnits(p)}
            IN {"missing:" \o XLabel(p, u) : u \in {u \in XMatched(V, p) \cap XDefaultUnits(p) : XObjOf(V, p, u).id \notin got}}
-              \cup {"extra:" \o XName(XAt(V, x)) : x \in got \ want}
+              \cup {"extra:" \o XName(XAt(V, x)) : x \in got \ (want \cup {XObjOf(V, p, u).id : u \in XMatched(V, p) \cap XMayDefaultUnits(p)})}
            : ab \in XFixed(V, "ALL_BUILD")}
 
 (* ---- F4 DepsCover --------------------------------------------------------- *)
